@@ -334,7 +334,7 @@ static int mtx_irem(void *dest, number a, int n) {
   if (a.i==0) PY_ERR_INT(PyExc_ZeroDivisionError, "division by zero");
   int i;
   for (i=0; i<n; i++) {
-    int_t r = ((int_t *)dest)[i] % a.i;
+    int_t r = (a.i == -1) ? 0 : ((int_t *)dest)[i] % a.i;
     ((int_t *)dest)[i] = (r != 0 && ((r < 0) != (a.i < 0))) ? r + a.i : r;
   }
 
